@@ -48,9 +48,9 @@ def run(ctx):
                     for b in others:
                         for j in range(2, lens[b], 4):
                             jobs.append((fam, a, [(b, j), (a, i)]))
-                elif "maintenance" in fam["name"] and i % 2 == 0:
+                elif "maintenance" in fam["name"] and (i % 2 == 0 or fam.get("dense")):
                     for b in others:
-                        for j in range(2, lens[b], 3 if fam["fire"] == "all" else 4):
+                        for j in range(2, lens[b], 1 if fam.get("dense") else 3 if fam["fire"] == "all" else 4):
                             jobs.append((fam, a, [(b, j), (a, i)]))
 
     def one(job):
